@@ -13,7 +13,7 @@ MANIFEST = {
             'and only ISO-2022-JP can have pending state; (D2) whole characters only: every byte goes through a linear handle obtained from '
             'a space test covering the whole character (R-HANDLE), and no fetched character is dropped (R-ACCOUNT). That the bytes decode back '
             'to the input (table contents, pointer arithmetic) is not decided. ' 
-            '(R-SINGLEBYTE) a byte the single-byte encoder emits without a table look-up decodes back to the character it was emitted for: the run parameters of all 28 single-byte encodings mirror the decode tables entry by entry. Also run here (shared rules): R-UTF8ENC (UTF-8 output cut on a character boundary), R-SURR on the encoder side incl. utf_8::convert_utf16_to_utf8*, and C09-D2 write_ncr (an NCR is the decimal scalar value with every digit stored). C03-D5 (which characters each encoder routes to which table or formula, exact sets) is run here too: a mis-routed character does not decode back.',
+            '(R-SINGLEBYTE) a byte the single-byte encoder emits without a table look-up decodes back to the character it was emitted for: the run parameters of all 28 single-byte encodings mirror the decode tables entry by entry. Also run here (shared rules): R-UTF8ENC (UTF-8 output cut on a character boundary), R-SURR on the encoder side incl. utf_8::convert_utf16_to_utf8*, and C09-D2 write_ncr (an NCR is the decimal scalar value with every digit stored). C03-D5 (which characters each encoder routes to which table or formula, exact sets) is run here too: a mis-routed character does not decode back. R-INPUTEMPTY on the encoder side is run here too: InputEmpty is reported only where the source is exhausted, otherwise the unreported rest never reaches the output.',
     'note': 'Trusted: rustc MIR, mirx, rule library, the escape table of Encoding Standard §12.2.2 transcribed in rules/r_state.py.',
     'technique': 'typestate/pairing rules over bounded MIR path summaries + handle typestate + dataflow',
 }
@@ -33,6 +33,8 @@ def run(rep, facts, tier):
         n = r_surr.run(rep, f, c, 'R-SURR', lambda nm: 'Encoder::' in nm or nm.startswith(('handles::Utf16Source', 'handles::Utf8Source', 'utf_8::convert_utf16_to_utf8')))
         rep.floor('R-SURR', 'surrogate tests on the encoder side', n, 10, c)
         p_c09.write_ncr(rep, f, c)        # the NCR an unmappable becomes is the decimal scalar value, every digit stored
+        import r_inputempty
+        n = r_inputempty.run(rep, f, c, 'R-INPUTEMPTY', lambda nm: 'Encoder::' in nm or nm.startswith(('handles::Utf16Source', 'handles::Utf8Source')))     # InputEmpty with input left over: the rest never reaches the output
         import r_encclass
         r_encclass.run(rep, f, c, 'C03-D5')     # which characters each encoder routes to which table/formula: a mis-routed character does not decode back
     return ('other', MANIFEST['text'], [])
